@@ -883,10 +883,70 @@ def sequence_oracle(rng):
     return fails, model, steps
 
 
+def anchor_oracle(seed):
+    """the distance-modulus difference a magnification lens receives through CosmoLikelihood.likelihood is the one between its
+    source redshift and the CONFIGURED anchor redshift (z_apparent_m_anchor of the model), for every cosmological model:
+    compared with the same lens evaluated directly with the anchor handed over by hand on an astropy cosmology"""
+    import random
+    import warnings
+    import copy
+    from hierarc.Likelihood.cosmo_likelihood import CosmoLikelihood
+    from hierarc.Likelihood.hierarchy_likelihood import LensLikelihood
+    from astropy.cosmology import FlatLambdaCDM, FlatwCDM, LambdaCDM, w0waCDM
+    rng = random.Random(seed)
+    model = rng.choice(["FLCDM", "FwCDM", "w0waCDM", "oLCDM"])
+    za = rng.choice([0.35, 0.02, 0.5, 0.1, rng.uniform(0.02, 0.8)])
+    h0, om = rng.uniform(55, 85), rng.uniform(0.2, 0.4)
+    extra = {"FLCDM": {}, "FwCDM": {"w": rng.uniform(-1.3, -0.7)}, "w0waCDM": {"w0": rng.uniform(-1.2, -0.8), "wa": rng.uniform(-0.5, 0.5)},
+             "oLCDM": {"ok": rng.uniform(-0.1, 0.1)}}[model]
+    cosmo = {"FLCDM": lambda: FlatLambdaCDM(H0=h0, Om0=om), "FwCDM": lambda: FlatwCDM(H0=h0, Om0=om, w0=extra["w"]),
+             "w0waCDM": lambda: w0waCDM(H0=h0, Om0=om, Ode0=1 - om, w0=extra["w0"], wa=extra["wa"]),
+             "oLCDM": lambda: LambdaCDM(H0=h0, Om0=om, Ode0=1 - om - extra["ok"])}[model]()
+    n = 3
+    magnif = [rng.uniform(1.5, 6) for _ in range(n)]
+    amp0 = rng.uniform(20, 60)
+    lens = dict(z_lens=rng.uniform(0.3, 0.6), z_source=rng.uniform(1.0, 2.0), likelihood_type="Mag",
+                amp_measured=[m * amp0 for m in magnif], cov_amp_measured=np.diag([(0.1 * m * amp0) ** 2 for m in magnif]),
+                magnification_model=magnif, cov_magnification_model=np.diag([(0.05 * m) ** 2 for m in magnif]), magnitude_zero_point=20)
+    mu = rng.uniform(15, 19)
+    lo = {"h0": 0.1, "om": 0.01, "w": -3, "w0": -3, "wa": -3, "ok": -0.5}
+    up = {"h0": 200, "om": 0.99, "w": 0, "w0": 0, "wa": 3, "ok": 0.5}
+    kb = dict(kwargs_lower_cosmo=lo, kwargs_upper_cosmo=up, kwargs_lower_source={"mu_sne": 0}, kwargs_upper_source={"mu_sne": 50})
+    with warnings.catch_warnings():
+        warnings.simplefilter("ignore")
+        cl = CosmoLikelihood([copy.deepcopy(lens)], model, dict(sne_apparent_m_sampling=True, sne_distribution="NONE", z_apparent_m_anchor=za),
+                             kb, interpolate_cosmo=False)
+        names = cl.param.param_list()
+        vals = dict(h0=h0, om=om, mu_sne=mu, **extra)
+        got = float(np.squeeze(cl.likelihood([vals[k] for k in names])))
+        kw = dict(lens)
+        zl, zs = kw.pop("z_lens"), kw.pop("z_source")
+        direct = LensLikelihood(zl, zs, **kw)
+        want = float(np.squeeze(direct.lens_log_likelihood(cosmo, kwargs_lens={}, kwargs_kin={},
+                                                          kwargs_source=dict(mu_sne=mu, sigma_sne=0.0, z_apparent_m_anchor=za))))
+    if not close(got, want, 1e-7, atol=1e-7):
+        return ("%s, anchor redshift %r configured in the model: CosmoLikelihood.likelihood gives %r for a magnification lens, the same lens "
+                "with the modulus difference to that anchor gives %r" % (model, za, got, want))
+    return None
+
+
 def run(ctx, res):
     np.random.seed(ctx.np_seed())
     rng = ctx.rng
     stats = {}
+    # ---------------- stream A: the configured anchor redshift reaches the lens
+    for _ in range(ctx.n(8, 60)):
+        aseed = rng.randrange(2 ** 31)
+        try:
+            f = anchor_oracle(aseed)
+        except Exception as e:  # noqa
+            res.notes.append("anchor oracle could not run: %r" % (e,))
+            res.count("anchor_oracle_failed_to_run")
+            continue
+        res.evaluations += 1
+        res.count("stream=anchor")
+        if f:
+            res.violation("CosmoLikelihood.likelihood:anchor-redshift-not-forwarded", f, {"anchor_seed": aseed})
     # ---------------- stream 0: one instance, paths changing one parameter at a time
     for _ in range(ctx.n(12, 120)):
         try:
@@ -1074,6 +1134,9 @@ def replay(ctx, data):
     inp = data["input"]
     kind = inp.get("kind")
     sig = data.get("signature")
+    if "anchor_seed" in inp:
+        f = anchor_oracle(inp["anchor_seed"])
+        return bool(f), str(f)
     if inp.get("sequence"):
         import random
         for sd in range(60):
